@@ -14,6 +14,7 @@ import (
 	"testing"
 
 	"verifh/evid"
+	"verifh/hist"
 	"verifh/vsync"
 )
 
@@ -203,4 +204,31 @@ func tail(s string, n int) string {
 		return s[len(s)-n:]
 	}
 	return s
+}
+
+// AddHist merges an explicit-state (hist.BFS) result into the aggregate.
+func (a *Agg) AddHist(res *hist.Result) {
+	a.States += res.States
+	a.Trans += res.Transitions
+	a.Execs += res.Histories
+	a.MaxEnabled = 2
+	if res.DepthCompleted > a.MaxDepth {
+		a.MaxDepth = res.DepthCompleted
+	}
+	if !res.Exhaustive {
+		a.Exhaustive = false
+	}
+	a.Scenarios = append(a.Scenarios, map[string]any{"name": res.Name, "states": res.States, "transitions": res.Transitions, "histories_replayed": res.Histories,
+		"depth_completed": res.DepthCompleted, "exhaustive": res.Exhaustive, "violations": len(res.Violations), "nondeterministic_states": len(res.Nondet)})
+	for _, s := range res.Samples {
+		if len(a.Samples) < 6 {
+			a.Samples = append(a.Samples, map[string]any{"scenario": res.Name, "history": s})
+		}
+	}
+	for _, e := range res.Nondet {
+		a.Nondet = append(a.Nondet, res.Name+": "+e)
+	}
+	for _, v := range res.Violations {
+		a.Run.Violation(v.Key, fmt.Sprintf("%s [history=%v]", v.What, v.History), map[string]any{"scenario": res.Name, "history": v.History})
+	}
 }
